@@ -39,6 +39,12 @@ def main():
         dpath = os.path.join(wt, "demo_seeded.py")
         with open(dpath, "w") as fh:
             fh.write(src)
+        helpers = [f for f in os.listdir(origin) if f.startswith("_") and f.endswith(".py")]
+        for h in helpers:                   # helper modules shared by several demos
+            with open(os.path.join(origin, h)) as fh:
+                htxt = fh.read().replace(origin, wt)
+            with open(os.path.join(wt, h), "w") as fh:
+                fh.write(htxt)
         env = dict(os.environ, PYTHONDONTWRITEBYTECODE="1")
         d0 = sh(["/venv/bin/python", dpath], cwd=wt, env=env, timeout=1200)
         ran.append(f"demo on unchanged tree: exit {d0.returncode}")
@@ -70,6 +76,8 @@ def main():
         os.makedirs(dest, exist_ok=True)
         shutil.copy(patch, os.path.join(dest, "patch.diff"))
         shutil.copy(demo, os.path.join(dest, "demo.py"))
+        for h in helpers:
+            shutil.copy(os.path.join(origin, h), os.path.join(dest, h))
         meta = {"id": sid, "property": prop, "needs": needs, "files_touched": touched,
                 "confirmed": ran, "demo_note": "demo.py pins sys.path to the scratch worktree it was written "
                 "in; tools/seeded_import.py rewrites that path when it re-runs it",
